@@ -137,6 +137,9 @@ func (e *Engine) strEq(a, b Str) *Term {
 	if a.t == nil && b.t == nil {
 		return e.ts.Bool(a.s == b.s)
 	}
+	if r, ok := e.sha1Eq(a, b); ok {
+		return r
+	}
 	r := e.ts.tru
 	for i := a.Len() - 1; i >= 0; i-- {
 		r = e.ts.BAnd(e.ts.Cmp(opEq, e.byteAt(a, i), e.byteAt(b, i)), r)
